@@ -135,14 +135,16 @@ pub fn poly_report(p: &Poly) -> PolyReport {
         }
         return rep;
     }
-    if !rep.ring_defects.is_empty() {
-        // ring-vs-ring relations are only defined for well-formed rings
-        return rep;
-    }
-    let shell = ring_poly(&p.ext);
-    let holes: Vec<G> = p.holes.iter().filter(|h| !h.is_empty()).map(|h| ring_poly(h)).collect();
-    let hole_idx: Vec<usize> = (0..p.holes.len()).filter(|i| !p.holes[*i].is_empty()).collect();
+    // ring-vs-ring relations are only defined for well-formed rings: they are evaluated among those
+    let malformed = |i: usize| rep.ring_defects.iter().any(|(k, _)| *k == i);
+    let shell_ok = !malformed(0);
+    let shell = if shell_ok { ring_poly(&p.ext) } else { G::Coll(vec![]) };
+    let hole_idx: Vec<usize> = (0..p.holes.len()).filter(|i| !p.holes[*i].is_empty() && !malformed(*i + 1)).collect();
+    let holes: Vec<G> = hole_idx.iter().map(|i| ring_poly(&p.holes[*i])).collect();
     for (k, h) in holes.iter().enumerate() {
+        if !shell_ok {
+            break;
+        }
         let m = de9im(h, &shell);
         // hole must lie inside the shell: no part of it in the shell's exterior
         if m.get(Loc::I, Loc::E) >= 0 || m.get(Loc::B, Loc::E) >= 0 {
